@@ -252,6 +252,10 @@ type exec struct {
 	hasC   bool
 	evA    *pvote
 	evB    *pvote
+	// multi-sign transaction under construction (wide.go)
+	mstMain types.MultiSignMainInfo
+	mstSigs []types.ValidatorSign
+	hasMst  bool
 }
 
 func (P) NewExec() hx.Executor {
@@ -499,7 +503,7 @@ func (e *exec) Exec(op string) string {
 		}
 		return fmt.Sprintf("height=%d round=%d size=%d iscommit=%v bits=%s basic=%s", c.Height(), c.Round(), c.Size(), c.IsCommit(),
 			bits(e.commit().BitArray(), len(e.cslots)), basic)
-	case "verify":
+	case "verify", "verifyany":
 		if !e.hasC || e.valset == nil {
 			return "dead"
 		}
@@ -507,7 +511,12 @@ func (e *exec) Exec(op string) string {
 		b, _ := hx.Arg(toks, "bid")
 		hs, _ := hx.Arg(toks, "h")
 		h, _ := strconv.ParseUint(hs, 10, 64)
-		err := e.valset.VerifyCommit(string(hx.UnHex(c)), parseBid(b).real(), h, e.commit())
+		var err error
+		if toks[0] == "verifyany" {
+			err = e.valset.VerifyCommitAny(string(hx.UnHex(c)), parseBid(b).real(), h, e.commit())
+		} else {
+			err = e.valset.VerifyCommit(string(hx.UnHex(c)), parseBid(b).real(), h, e.commit())
+		}
 		if err == nil {
 			return "ok"
 		}
@@ -532,5 +541,5 @@ func (e *exec) Exec(op string) string {
 		pv := parseVote(toks, e.chain)
 		return hx.Hex(pv.real().SignBytes(string(hx.UnHex(c))))
 	}
-	return "bad-op"
+	return e.wideOp(toks)
 }
